@@ -42,7 +42,7 @@ class _VSelector:
         loop = self._loop
         if timeout == 0:
             return []  # callbacks are ready: not quiescent
-        if loop.real_waiters > 0:
+        if loop.real_waiters - loop.thread_parked > 0:
             # an executor thread is outstanding; it will wake us through the self-pipe
             loop.real_selects += 1
             return self._real.select(0.02)
@@ -92,6 +92,7 @@ class VirtualLoop(asyncio.SelectorEventLoop):
         self.steps = 0
         self.idle_points = 0
         self.real_waiters = 0
+        self.thread_parked = 0  # executor threads that are themselves waiting for a coroutine they handed to this loop
         self.real_selects = 0
         self._quiesce_waiters = []
         self._adv = None
@@ -176,3 +177,26 @@ def run(coro_fn, debug=False):
             pass
         asyncio.set_event_loop(None)
         loop.close()
+
+
+_orig_rcts = asyncio.run_coroutine_threadsafe
+
+
+def _run_coroutine_threadsafe(coro, loop):
+    """An executor thread that calls back into the loop and waits for the result (WSGI's send path) is not running: it is parked on
+    loop-side work.  Counting it as parked lets the virtual loop reach quiescence while that work is blocked (back-pressure)."""
+    fut = _orig_rcts(coro, loop)
+    if isinstance(loop, VirtualLoop):
+        def _begin():
+            loop.thread_parked += 1
+
+        def _end(_):
+            loop.thread_parked -= 1  # runs on the loop thread, before the waiting thread wakes up
+
+        # _end first: if the work is already done the count errs on the side of "thread running" (never quiescent too early)
+        fut.add_done_callback(_end)
+        loop.call_soon_threadsafe(_begin)
+    return fut
+
+
+asyncio.run_coroutine_threadsafe = _run_coroutine_threadsafe
